@@ -1,6 +1,8 @@
 package check
 
 import (
+	"os"
+
 	"verifsim/core"
 	"verifsim/gen"
 	"verifsim/prog"
@@ -15,7 +17,7 @@ func init() {
 		}
 		var pg *prog.Program
 		if r.Bool(0.4) {
-			p := gen.KVParams{Modes: []int{0, 1}, Segs: []int64{96, 128, 144, 192, 256, 512}, MinTx: 3, MaxTx: maxTx, MaxOps: 4, Buckets: 2,
+			p := gen.KVParams{Modes: c12modes(), Segs: []int64{96, 128, 144, 192, 256, 512}, MinTx: 3, MaxTx: maxTx, MaxOps: 4, Buckets: 2,
 				TTL: r.Bool(0.3), Deletes: true, Advance: r.Bool(0.3), Views: true, BigP: 0.2, BadEnds: 0.25, Reopen: 0.1}
 			pg = gen.KV(r, p)
 		} else {
@@ -99,4 +101,11 @@ func init() {
 		Assume: []string{"after an injected sync error the transaction may be visible entirely or not at all, independently in the process and after reopen (as the property states)",
 			"whether a database keeps accepting writes after an injected I/O error is not part of the property (counted as a probe only)"},
 	})
+}
+
+func c12modes() []int {
+	if os.Getenv("NUTSIM_C12_SPARSE") != "" { // experiments only
+		return []int{2}
+	}
+	return []int{0, 1}
 }
